@@ -91,7 +91,7 @@ def reduce_cases(draw, tier="quick", funcs=FUNCS, nplans=3, allow_blockwise=True
     if not present:
         mode = draw(st.sampled_from(["none", "superset"]))
     extra_pool = {
-        "int": [20, 21, -1], "negint": [100, -100], "bigint": [1, 2**41], "float": [99.5, -99.5], "floatint": [6.0, 3.5], "str": ["y", "z", "A"], "u1": [7, 100], "u8": [7, 100], "i2": [7, -100],
+        "int": [20, 21, -1], "negint": [100, -100], "bigint": [1, 2**41], "float": [99.5, -99.5], "floatint": [6.0, 3.5], "str": ["y", "z", "A"], "u1": [7, 100], "u8": [7, 100], "i2": [7, -100], "f4": [99.5, -99.5],
     }[kind]  # fmt: skip
     if mode != "none":
         if mode == "exact":
